@@ -125,7 +125,7 @@ def _random_job(k):
         bad.append("random:DisplacementTransfer:translation")
     # rotations act to first order as a rigid rotation of each chordwise section about its structural node
     th = rng.normal(0, 1.0, size=(ny, 3))
-    eps = 1e-6
+    eps = 10.0 ** (-(2 + 2 * (k % 6)))  # 1e-2 ... 1e-12 rad: first order at EVERY magnitude (no threshold below which rotations are dropped)
     d = np.zeros((ny, 6))
     d[:, 3:] = eps * th
     r = run_comp(DisplacementTransferGroup(surface=surf), {"mesh": mesh, "nodes": nodes, "disp": d}, ["def_mesh"])["def_mesh"]
